@@ -22,8 +22,13 @@ def run_world(prop: str, world: Dict[str, Any], scheds: Sequence[Sequence[str]],
     h = hashlib.blake2b(digest_size=8)
     nobj = 0
     probes: Dict[str, int] = {}
+    options = None
+    if world.get('privacy'):
+        # privacy rules recorded with the world (patterns on the unique generated class names)
+        from pydoctor.model import PrivacyClass
+        options = simsystem.make_options(privacy=[(getattr(PrivacyClass, k), pat) for k, pat in world['privacy']])
     for sc in scheds:
-        system, out, exc = simsystem.build(texts, pkgs, sc)
+        system, out, exc = simsystem.build(texts, pkgs, sc, options=options)
         inter.add(simsystem.interleaving_id(system.sim_log))
         h.update(simsystem.log_digest(system.sim_log).encode())
         for e in system.sim_log:
